@@ -1,10 +1,13 @@
 #!/bin/bash
-# Bind the real runtime sources from /repo's working tree into the stand-in module (linkname directives stripped so the
-# host linker does not see duplicate sync.runtime_* symbols; everything else byte-identical).
+# Bind the real runtime sources from the repository's working tree into a copy of the stand-in module (linkname directives stripped so the
+# host linker does not see duplicate sync.runtime_* symbols; everything else byte-identical) and build the explorer.
 set -e
-R=/verif/sched/rt
-grep -v '^//go:linkname' /repo/runtime/internal/runtime/z_chan.go > $R/internal/runtime/z_chan.go
-grep -v '^//go:linkname' /repo/runtime/internal/lib/runtime/sema_llgo.go > $R/internal/lib/runtime/sema_llgo.go
+REPO=${VERIF_REPO:-/repo}
+B=${VERIF_BUILD:-/verif/build}
+R=$B/schedrt
+mkdir -p $R $B/sched
+rsync -a --delete --exclude z_chan.go --exclude sema_llgo.go /verif/sched/rt/ $R/
+grep -v '^//go:linkname' $REPO/runtime/internal/runtime/z_chan.go > $R/internal/runtime/z_chan.go
+grep -v '^//go:linkname' $REPO/runtime/internal/lib/runtime/sema_llgo.go > $R/internal/lib/runtime/sema_llgo.go
 . /verif/tc/env.sh
-mkdir -p /verif/build/sched
-cd $R && go build -o /verif/build/sched/explore ./cmd/explore
+cd $R && go build -o $B/sched/explore ./cmd/explore
